@@ -551,6 +551,38 @@ def _is_cli_namespace(p, fi, name, _depth=0):
     return False
 
 
+def check_lifetime(ctx, rule):
+    """What a derived node answers must be a function of the root and the path - not of which other objects the caller
+    happens to keep alive.  The evaluator models a weak reference as `alive ? referent : None` with `alive` an
+    environment condition; no API-level observation of a derived node may contain it."""
+    p = ctx.p
+    for be in BACKENDS:
+        for kind, mk in (('prv', lambda: prv_node()[0]), ('pub', lambda: pub_node()[0])):
+            q = 'bip32.PrvKeyNode.ckd' if kind == 'prv' else 'bip32.PubKeyNode.ckd'
+            fi = p.get_function(q)
+            with ctx.obligation(rule, q.split('.', 1)[1], be, fi.where) as ob:
+                ev = Evaluator(p, be)
+                parent = mk()
+                i = S('i', type='int')
+                facts = Facts().add(T.not_(T.lt(i, T.const(0)))).add(T.lt(i, T.const(2 ** 31)))
+                v, f = ev.call_function(q, [parent], {'index': i}, facts=facts)
+                nl = normal_leaves(v)
+                ob.require(len(nl) >= 1, 'ckd produces a child', fi.where)
+                for cs, child in nl[:2]:
+                    fx = Facts(known_at(f, cs))
+                    obs = [('str(node)', 'bip32.PubKeyNode.__repr__', {}), ('parent_fingerprint', 'bip32.PubKeyNode.parent_fingerprint', {}),
+                           ('extended_public_key', 'bip32.PubKeyNode.extended_public_key', {}), ('is_root()', 'bip32.PubKeyNode.is_root', {})]
+                    for lab, mq, kw in obs:
+                        if mq not in p.functions and PKG + '.' + mq not in p.functions:
+                            continue
+                        r, _ = ev.call_function(mq, [child], kw, facts=fx)
+                        ob.evaluations += 1
+                        env_syms = sorted({x[1] for x in T.walk(r) if T.tag(x) == 'sym' and str(x[1]).startswith('ENV:referent')})
+                        ob.require(not env_syms, '%s of a derived node depends on whether another object is still alive (a weak '
+                                   'reference to the parent): the same root and path give different answers once the caller '
+                                   'drops the ancestors' % lab, fi.where, found=T.show(r, maxdepth=4))
+
+
 def run(ctx):
     p = ctx.p
     ctx.explanation = (
@@ -679,6 +711,7 @@ def run(ctx):
             ob.saw(mi.relpath)
     check_inplace(ctx, 'C13.INPLACE')
     C17.check_fold(ctx, 'C13.FOLD')
+    check_lifetime(ctx, 'C13.LIFETIME')
     # ---------------------------------------------------------------- the address generator
     fg = p.get_function('base_wallet.BaseWallet.address_generator')
     with ctx.obligation('C13.GEN', 'BaseWallet.address_generator', None, fg.where) as ob:
